@@ -129,6 +129,10 @@ pub struct OpRecord {
     pub superseded_locally: bool,
     /// more than one own write matches this call (concurrent identical deletes): timestamp unknown
     pub ambiguous: bool,
+    /// length of the issuer's storage call log when the call was invoked ...
+    pub calls_at_invoke: usize,
+    /// ... and when it returned, or when the issuer's host was stopped with the call in flight
+    pub calls_end: Option<usize>,
 }
 
 #[derive(Clone, Debug)]
@@ -355,6 +359,14 @@ impl<'a> Cluster<'a> {
     }
 
     pub fn crash(&mut self, node: u8) {
+        {
+            // calls in flight on this node end here: what they wrote so far is all they wrote
+            let mut sh = self.shared.borrow_mut();
+            let len = sh.stores.get(&node).map(|s| s.st.lock().calls.len()).unwrap_or(0);
+            for o in sh.ops.iter_mut().filter(|o| o.node == node && o.calls_end.is_none()) {
+                o.calls_end = Some(len);
+            }
+        }
         self.shared.borrow_mut().up.remove(&node);
         self.shared.borrow_mut().cmd_tx.remove(&node);
         self.shared.borrow_mut().member_tx.remove(&node);
@@ -658,9 +670,14 @@ async fn run_op(sh: &SharedRef, node: u8, h: &ReplicatedStoreHandle<SimStorage>,
             view_at_return: view,
             superseded_locally: false,
             ambiguous: false,
+            calls_at_invoke: 0,
+            calls_end: None,
         });
     }
     let calls_at_invoke = sh.borrow().stores[&node].st.lock().calls.len();
+    if let Some(r) = sh.borrow_mut().ops.iter_mut().find(|r| r.op_id == op_id) {
+        r.calls_at_invoke = calls_at_invoke;
+    }
     let level = level_of(&spec.level);
     let res = match spec.kind.as_str() {
         "put" => h.put(&spec.ks, spec.ids[0], payload_for(&spec, node, op_id, spec.ids[0]), level).await,
@@ -740,6 +757,7 @@ async fn run_op(sh: &SharedRef, node: u8, h: &ReplicatedStoreHandle<SimStorage>,
         r.view_at_return = view;
         r.superseded_locally = superseded;
         r.ambiguous = ambiguous;
+        r.calls_end = Some(own.st.lock().calls.len());
     }
 }
 
@@ -752,17 +770,28 @@ pub struct Issued {
     pub data: Option<Vec<u8>>,
 }
 
-/// All operations issued in the cluster, read off the stores' call logs.
+/// All operations issued in the cluster: for every call made through a store handle, the writes
+/// with the issuer's own node id that its store received between the call's invocation and its
+/// return (or the stop of its host), for the call's keyspace, ids and kind. Reading the whole log
+/// instead would launder a manufactured timestamp: a tombstone a peer invents with the issuer's
+/// node id comes back to the issuer through repair and would then look like its own operation.
 pub fn issued_ops(sh: &Shared) -> Vec<Issued> {
     let mut out: BTreeSet<Issued> = BTreeSet::new();
-    for (node, st) in &sh.stores {
+    for o in &sh.ops {
+        let Some(st) = sh.stores.get(&o.node) else { continue };
         let st = st.st.lock();
-        for c in &st.calls {
-            if c.applied == 0 || c.kind == "remove_tombstones" {
+        let end = o.calls_end.unwrap_or(st.calls.len()).min(st.calls.len());
+        let is_del = o.spec.kind.starts_with("del");
+        for c in st.calls.iter().take(end).skip(o.calls_at_invoke.min(end)) {
+            if c.applied == 0 || c.kind == "remove_tombstones" || c.keyspace != o.spec.ks {
+                continue;
+            }
+            let call_is_del = c.kind.starts_with("mark");
+            if call_is_del != is_del {
                 continue;
             }
             for (i, (k, t)) in c.items.iter().take(c.applied).enumerate() {
-                if t.node() == *node {
+                if t.node() == o.node && o.spec.ids.contains(k) {
                     out.insert(Issued { ks: c.keyspace.clone(), id: *k, ts: *t, data: c.datas.get(i).cloned().flatten() });
                 }
             }
@@ -771,7 +800,6 @@ pub fn issued_ops(sh: &Shared) -> Vec<Issued> {
     out.into_iter().collect()
 }
 
-/// Last-writer-wins expectation: (ks, id) -> (ts, is_live)
 pub fn lww(issued: &[Issued]) -> BTreeMap<(String, u64), (HLCTimestamp, bool)> {
     let mut m: BTreeMap<(String, u64), (HLCTimestamp, bool)> = BTreeMap::new();
     for i in issued {
